@@ -11,6 +11,7 @@ from ..engine.runner import Rule
 from ..engine.source import AnalysisError
 from ..engine.sqlfront import all_where_clauses, identifiers, split_conjuncts
 from . import C13
+from . import C12
 from . import shared
 from .common import callee_name, calls_in, kwarg
 
@@ -554,6 +555,7 @@ def rule_three_predicates(ctx):
 
 
 RULES = [
+    Rule("R-C03-11", "the verdict of a command or check says nothing about a step that was declared again meanwhile: it is dropped in the transaction that would apply it", C12.rule_redeclared_running_step, min_instances=22),
     Rule("R-C03-10", "the re-hash before and after a command trusts a recorded digest only when the full stat signature is unchanged", C13.rule_stat_shortcut, min_instances=4),
     Rule("R-C03-1", "one shared definition of 'blocked input'", rule_shared_predicate, min_instances=4),
     Rule("R-C03-2", "the predicate means what the property says", rule_predicate_meaning, min_instances=3),
@@ -596,6 +598,9 @@ MUTANTS = [
     Mutant("defer-predicate-state-only", "step.py", in_function("Step.has_unavailable_dynamic_input", lambda s: s.replace("            AND (\n                node.detached\n                OR file.state NOT IN ({FileState.CONFIRMED.value}, {FileState.BUILT.value})\n            )\n", "            AND file.state NOT IN ({FileState.CONFIRMED.value}, {FileState.BUILT.value})\n") if "node.detached" in s else None), ("R-C03-8",)),
     Mutant("report-arm-state-only", "pending.py", replace_once("       AND (\n           input_node.detached\n           OR input_file.state NOT IN ({FileState.CONFIRMED.value}, {FileState.BUILT.value})\n       )\n", "       AND input_file.state NOT IN ({FileState.CONFIRMED.value}, {FileState.BUILT.value})\n"), ("R-C03-8",)),
 ]
+
+# the declared-again mechanism is shared with C12 (R-C12-10): its mutants are replayed for this property's copy of the rule
+MUTANTS += [Mutant("shared-" + m.name, m.file, m.transform, ("R-C03-11",), m.note) for m in C12.MUTANTS if m.name in ['verdict-applied-without-asking', 'redeclaration-compared-by-value-only', 'replaced-declaration-completes', 'stale-note-survives-early-exit']]
 
 VARIANTS = [
     Variant("predicate-rewritten", "step.py", replace_once("        input_file.state NOT IN ({FileState.BUILT.value}, {FileState.CONFIRMED.value})\n    )\n)", "        (input_file.state != {FileState.BUILT.value} AND input_file.state != {FileState.CONFIRMED.value})\n    )\n)")),
